@@ -16,6 +16,10 @@ bytes on disk at the crash instant are exactly the bytes written so far; a scena
 io.BufferedWriter does for payloads below its buffer size), so a process dying between a write and the
 close leaves NONE of them in the file -- the two modes bracket what a real interpreter can leave behind.
 
+Scenario kinds: "map" (one parallelise call; option "codec": a user supplied (name_fn, save_fn, load_fn) triple from
+CODECS instead of the default pickle functions), "scan_ss"/"scan_tc", and "session": several parallelise calls in ONE
+process with ONE Cache object (per call: the value, the inputs fn was evaluated on, the directory afterwards).
+
 A crash plan  {"match": prefix, "event": i, "byte": j, "action": "exit"|"killpg"}  means: in the
 process whose i-th event on a path (relative to the cache dir) starting with `prefix` is reached,
 die before performing it (j = 0), or -- for a write of n bytes -- after its first j bytes (0<j<n).
@@ -52,6 +56,7 @@ CACHE_DIR: str | None = None
 PLAN: dict | None = None
 EVLOG: str | None = None
 CALLLOG: str | None = None
+RECLOG: str | None = None  # side log of the "recording" custom save_fn/load_fn (which file name they were handed)
 COUNTER = [0]
 BUFFERED = [False]  # scenario option: writes stay in a user-space buffer until flush/close (as io.BufferedWriter does)
 
@@ -318,7 +323,132 @@ def fn_text(x):
     return "r" * (x % 7) + str(x)
 
 
-FNS = {"sq": fn_sq, "affine": fn_affine, "tup": fn_tup, "dict": fn_dict, "text": fn_text}
+def fn_frame(x):
+    """a small pandas frame with exactly representable entries (for the pandas to_pickle/read_pickle pair)"""
+    import pandas as pd
+
+    _log_call(x)
+    return pd.DataFrame({"t": [0.0, 0.5, 1.0], "y": [float(x), x * 0.5, x * 0.25]})
+
+
+FNS = {"sq": fn_sq, "affine": fn_affine, "tup": fn_tup, "dict": fn_dict, "text": fn_text, "frame": fn_frame}
+
+
+# ---------------------------------------------------------------------------------------
+# user supplied (name_fn, save_fn, load_fn) triples for Cache (module level: picklable for the pool).
+# They write STRAIGHT into the path they are handed (atomicity of a custom save_fn is the user's business:
+# no kill scenarios for them); what is checked is the contract of the pluggable triple: load_fn gets
+# exactly the file name save_fn was handed for that key.
+# ---------------------------------------------------------------------------------------
+
+
+def gz_name(k) -> str:
+    return f"{k!r}.pkl.gz"
+
+
+def plain_name(k) -> str:
+    return f"{k!r}.pkl"
+
+
+def sfx_save(file, data) -> None:
+    """format chosen from the SUFFIX of the name it is handed (as pandas/numpy writers do)"""
+    import gzip
+    import pickle
+
+    b = pickle.dumps(data)
+    if str(file).endswith(".gz"):
+        b = gzip.compress(b, mtime=0)
+    with open(file, "wb") as fp:
+        fp.write(b)
+
+
+def sfx_load(file):
+    import gzip
+    import pickle
+
+    with open(file, "rb") as fp:
+        b = fp.read()
+    if str(file).endswith(".gz"):
+        b = gzip.decompress(b)
+    return pickle.loads(b)  # noqa: S301
+
+
+def pd_save(file, df) -> None:
+    df.to_pickle(file)  # compression inferred from the name
+
+
+def pd_load(file):
+    import pandas as pd
+
+    return pd.read_pickle(file)  # noqa: S301  compression inferred from the name
+
+
+def rec_name(k) -> str:
+    return f"r_{k!r}.rec"
+
+
+def _rec(op: str, file) -> None:
+    if RECLOG:
+        _raw_append(RECLOG, json.dumps({"op": op, "name": os.path.basename(str(file)), "dir": os.path.dirname(os.path.abspath(str(file)))}) + "\n")
+
+
+def rec_save(file, data) -> None:
+    import pickle
+
+    _rec("save", file)
+    with open(file, "wb") as fp:
+        pickle.dump(data, fp)
+
+
+def rec_load(file):
+    import pickle
+
+    _rec("load", file)
+    with open(file, "rb") as fp:
+        return pickle.load(fp)  # noqa: S301
+
+
+def stamp_name(k) -> str:
+    return f"{k!r}.stamped"
+
+
+def stamp_save(file, data) -> None:
+    """stores the name it was handed next to the data"""
+    import pickle
+
+    with open(file, "wb") as fp:
+        pickle.dump((os.path.basename(str(file)), data), fp)
+
+
+def stamp_load(file):
+    import pickle
+
+    with open(file, "rb") as fp:
+        name, data = pickle.load(fp)  # noqa: S301
+    if name != os.path.basename(str(file)):
+        raise ValueError(f"file {os.path.basename(str(file))!r} was written under the name {name!r}")
+    return data
+
+
+CODECS = {
+    "gz-suffix": (gz_name, sfx_save, sfx_load),
+    "plain-suffix": (plain_name, sfx_save, sfx_load),
+    "pandas-gz": (gz_name, pd_save, pd_load),
+    "recording": (rec_name, rec_save, rec_load),
+    "stamped": (stamp_name, stamp_save, stamp_load),
+}
+
+
+def make_cache(sc: dict):
+    from mxlpy.parallel import Cache
+
+    if not sc.get("use_cache", True):
+        return None
+    d = Path(sc["cache_dir"])
+    if sc.get("codec"):
+        name_fn, save_fn, load_fn = CODECS[sc["codec"]]
+        return Cache(tmp_dir=d, name_fn=name_fn, load_fn=load_fn, save_fn=save_fn)
+    return Cache(tmp_dir=d)
 
 
 def dec_key(k):
@@ -363,6 +493,8 @@ def canon(v):
         return {"dict": [[str(a), canon(b)] for a, b in sorted(v.items(), key=lambda kv: str(kv[0]))]}
     if isinstance(v, float):
         return {"float": v.hex()}
+    if type(v).__name__ == "DataFrame":
+        return {"frame": _frame(v)}
     return v
 
 
@@ -403,9 +535,36 @@ def _frame(df):
 
 
 def do_run(sc: dict):
-    from mxlpy.parallel import Cache, parallelise
+    from mxlpy.parallel import parallelise
 
-    cache = Cache(tmp_dir=Path(sc["cache_dir"])) if sc.get("use_cache", True) else None
+    cache = make_cache(sc)
+    if sc["kind"] == "session":
+        # several runs in ONE process with ONE Cache object (a notebook session): per run the returned
+        # value, the inputs fn was evaluated on, and the directory afterwards
+        out = []
+        for r in sc["runs"]:
+            n0 = len(_read_lines(CALLLOG)) if CALLLOG else 0
+            e0 = len(_read_lines(EVLOG)) if EVLOG else 0
+            items = [(dec_key(k), x) for k, x in r["items"]]
+            try:
+                res = parallelise(
+                    FNS[sc["fn"]],
+                    items,
+                    cache=cache,
+                    parallel=bool(r.get("parallel")),
+                    max_workers=r.get("workers", 2),
+                    disable_tqdm=True,
+                )
+                ent = {"status": "returned", "value": [[enc_key(k), canon(v)] for k, v in res]}
+            except Exception as e:  # noqa: BLE001
+                ent = {"status": "raised", "exc": type(e).__name__, "msg": str(e)[:200]}
+            if r.get("parallel"):
+                time.sleep(0.02)
+            ent["calls"] = _read_lines(CALLLOG)[n0:] if CALLLOG else []
+            ent["events"] = [json.loads(l) for l in _read_lines(EVLOG)[e0:]] if EVLOG else []
+            ent["files"] = _snapshot(sc["cache_dir"])
+            out.append(ent)
+        return out
     if sc["kind"] == "map":
         items = [(dec_key(k), x) for k, x in sc["items"]]
         res = parallelise(
@@ -469,11 +628,11 @@ def _read_lines(p: str) -> list[str]:
 
 def run_scenario(sc: dict) -> dict:
     """fork; the child runs the scenario (and may die); the parent reports what is left"""
-    global CACHE_DIR, PLAN, EVLOG, CALLLOG
+    global CACHE_DIR, PLAN, EVLOG, CALLLOG, RECLOG
     side = sc["side"]  # directory for logs / result (outside the cache dir)
     os.makedirs(side, exist_ok=True)
-    evlog, calllog, resfile = (os.path.join(side, n) for n in ("events.log", "calls.log", "result.json"))
-    for p in (evlog, calllog, resfile):
+    evlog, calllog, resfile, reclog = (os.path.join(side, n) for n in ("events.log", "calls.log", "result.json", "rec.log"))
+    for p in (evlog, calllog, resfile, reclog):
         if os.path.exists(p):
             _os_unlink(p)
     sys.stdout.flush()
@@ -488,7 +647,7 @@ def run_scenario(sc: dict) -> dict:
             CACHE_DIR = os.path.abspath(sc["cache_dir"])
             PLAN = sc.get("plan")
             BUFFERED[0] = bool(sc.get("buffered"))
-            EVLOG, CALLLOG = evlog, calllog
+            EVLOG, CALLLOG, RECLOG = evlog, calllog, reclog
             COUNTER[0] = 0
             try:
                 out = do_run(sc)
@@ -532,6 +691,7 @@ def run_scenario(sc: dict) -> dict:
         rep["result"] = None
     rep["events"] = [json.loads(l) for l in _read_lines(evlog)]
     rep["calls"] = _read_lines(calllog)
+    rep["rec"] = [json.loads(l) for l in _read_lines(reclog)]
     rep["files"] = _snapshot(sc["cache_dir"])
     return rep
 
@@ -544,6 +704,8 @@ def main() -> int:
 
     if any(s["kind"].startswith("scan") for s in job["scenarios"]):
         import mxlpy.scan  # noqa: F401
+    if any(s.get("fn") == "frame" for s in job["scenarios"]):
+        import pandas  # noqa: F401
     reports = [run_scenario(sc) for sc in job["scenarios"]]
     out = json.dumps(reports)
     sys.stdout.write(out)
